@@ -1,15 +1,23 @@
 from drv_node import NodeSuite
+from drv_cluster import ClusterSuite
+from drv_replication import ReceiverSuite
 import props.c02 as base
 
 
 class Prop:
     ID = 'C13'
-    GEN = ['enums', 'node']
-    MODEL_TARGETS = ['model/Node.vo', 'model/NodeSpec.vo', 'model/Cluster.vo', 'model/ClusterSpec.vo']
+    GEN = ['enums', 'node', 'proc']
+    MODEL_TARGETS = ['model/Node.vo', 'model/NodeSpec.vo', 'model/Cluster.vo', 'model/ClusterSpec.vo', 'model/Replication.vo']
     TARGETS = ['props/C13.vo', 'props/C13cluster.vo', 'props/C12.vo']
     PROPS_FILE = 'props/C13.v'
     PROPS_FILES = ['props/C13.v', 'props/C13cluster.v']
-    SUITES = [NodeSuite(evals={'mismatches': 'mismatches', 'spec_violations': 'spec_violations_c13'})]
+    SUITES = [NodeSuite(evals={'mismatches': 'mismatches', 'spec_violations': 'spec_violations_c13'},
+                        quick=(800, 60), thorough=(15000, 300)),
+              # the handshake glue (real SupervisorProxy.check_instance / _is_authorized against the real remote
+              # RPCInterface, slow handshakes included) is tied to Cluster.v here
+              ClusterSuite(evals={'mismatches': 'cmismatches'}, quick=(40, 150), thorough=(1500, 500)),
+              # process-plane clause: events only from admitted peers (model/Replication.v, theorems in props/C12.v)
+              ReceiverSuite()]
     RULE = base.Prop.RULE
     ASSUMPTIONS = base.Prop.ASSUMPTIONS
     TRUSTED = base.Prop.TRUSTED
